@@ -47,6 +47,16 @@ fn main() {
             }
             std::fs::write(&args[3], serde_json::to_string(&rep.to_json()).unwrap()).unwrap();
         }
+        Some("sweep-activations") => {
+            // vharness sweep-activations <cases.ndjson> <stride> <out.json>
+            let cases: Vec<Value> = std::io::BufReader::new(std::fs::File::open(&args[2]).expect("cases file"))
+                .lines()
+                .map(|l| serde_json::from_str(&l.unwrap()).expect("case json"))
+                .collect();
+            let stride: u64 = args[3].parse().expect("stride");
+            terms::sweep_activations(&mut rep, stride, &cases);
+            std::fs::write(&args[4], serde_json::to_string(&rep.to_json()).unwrap()).unwrap();
+        }
         Some("record") => {
             let group = args[2].as_str();
             let seed: u64 = args[3].parse().expect("seed");
@@ -85,6 +95,8 @@ fn dispatch(group: &str, case: &Value, rep: &mut util::Report, rng: &mut util::R
         "flow" => netcase::replay_flow(case, rep),
         "random" => random::replay_random(case, rep),
         "optimizer" => terms::replay_optimizer(case, rep, rng),
+        "objective" => terms::replay_objective(case, rep, rng),
+        "activation" => terms::replay_activation(case, rep),
         _ => panic!("unknown group {}", group),
     }
 }
